@@ -33,6 +33,15 @@ def run(chk):
               "builder": "harness.corpus.realise_facet",
               "max_entities": (None if c["cell"] in ("interval", "triangle", "quadrilateral") else 3) if quick else None,
               "npairs": 2 if quick else 4, "nperm": 2, "prefill": i % 2 == 0} for i, c in enumerate(sel)]
+    # every quadrature-permutation code of every facet type on both sides (the reference-facet symmetries: 2 for
+    # intervals, 6 for triangles, 8 for quadrilaterals - rotations and reflections do not commute on the last two)
+    for j, cl in enumerate(("triangle", "tetrahedron", "hexahedron", "quadrilateral")):
+        cs = [c for c in fc if c["cell"] == cl and c["measure"] == "dS" and c["elem"] == "P1" and c["rule"] == "custom"
+              and c["term"] in (("coefpm", "pm") if quick else ("coefpm", "pm", "jump", "avgflux"))]
+        for i, c in enumerate(s5.sample_cases(cs, 1 if quick else 3, chk.seed + 30 + j)):
+            items.append({"case": c, "seed": chk.seed * 100003 + 900 + 10 * j + i, "scalar": "float64", "ninputs": 1,
+                          "builder": "harness.corpus.realise_facet", "npairs": 1 if quick else 3, "allperms": True,
+                          "label": s5.case_label(c) + "|allperms"})
     recs = s5.run_items(chk, items, nworkers=4 if quick else 6)
     nz = s5.report(chk, items, recs)
     ents = {(lab, e) for (lab, it, e, p) in nz}
